@@ -35,6 +35,10 @@ CHECKS = {
    technique="metamorphic monitor: letter-case flips of known name occurrences vs. the unflipped run on the real linter (memory and on-disk projects)",
    text="A seeded generator builds workflows and projects (local actions, local reusable workflows) in which every name occurrence and its class is known (48 site classes: contexts, properties, functions, step and job ids in keys / needs / expressions, inputs, secrets, outputs, matrix keys, with: keys, action metadata keys, fromJSON literal keys, string index literals). Each case flips the case of a non-empty subset (same length, names unique after folding) and requires the same multiset of (file, line, col, kind, lower-cased message). 40% clean bases, 60% with one of 28 injected name-related defects, so equality is not vacuous; 11 fixed templates get every single flip exhaustively.",
    note="Never flipped: true/false/null, other string literals, YAML syntax keys, env keys, event/shell/label names, action specs."),
+ "C09": dict(level="exploration", design="§4 C09",
+   technique="metamorphic monitor: per-job / per-step / per-expression diagnostics under composition, permutation, insertion and removal of unrelated jobs, steps and earlier expressions (fake tools make the effective shell observable)",
+   text="Independently generated jobs (matrix forms incl. expression-valued rows/include/exclude built from context objects, default shells at three levels, linux/windows/macos runners, containers, outputs, needs, defective steps, parse-level defects) are composed in random orders and needs-closed subsets; per-job buckets (by emitted line ranges) must equal the workflow holding only that job, its needs closure and the header, each composition linted three times. Steps without ids are removed/reordered/inserted around id steps; an earlier expression A (132 forms covering every node kind and every .* form, 18 positions incl. strategy.matrix) is compared against a neutral literal for about 90 later plain accesses B; a serial family checks that matrices built from github / github.event do not leak into later jobs, files or fresh Linters.",
+   note="Workflow-level diagnostics, local actions/reusable workflows (reported once per run by design) and the bash/sh distinction are outside the compared domain."),
  "C10": dict(level="exploration", design="§4 C10",
    technique="Go race detector over multi-file workloads + isolation (alone vs. together) metamorphic monitor with seeded hook delays + table/config fingerprint invariants + file-vs-AST interface comparison",
    text="Generated layouts (one repo, two repos, prefix-named siblings, nested repositories, loose files, many files) whose workflows depend on their own repository's config, local action and reusable workflow and produce diagnostics built from shared tables. Every file is linted alone, then together in subsets / argument orders under GOMAXPROCS 1/2/4/16 with seeded delays at hook points (check start, cache writes); per-file diagnostics must be equal. Built-in table and shared *Config fingerprints are compared before/after; a third of the cases run in the -race build and every report touching actionlint frames is a violation; both cache-write interleavings must have been observed. Exploration of schedules, not enumeration.",
